@@ -67,7 +67,8 @@ def check_kw(case, stats):
             raise Violation(case, "%s line %r: AST says keyword %r name %r column %r; expected keyword %r name %r column %d" % (
                 cat, line, node["keyword"], node["name"], node["location"]["column"], want_kw, name, len(ind) + 1))
     else:
-        line = kw + "text" + trail
+        # layout 1 / 2: the step text starts with a combining mark (it belongs to the text, the keyword is still a prefix of the line)
+        line = kw + ["text", "\u0301text", "\u3099\u094dtext"][lay] + trail
         want_kw, want_type = expected_step(d, line)
         text = "\n".join(pre + [F + ":", " " + SC + ":", ind + line]) + "\n"
         r = gh.parse(text, dflt)
@@ -259,6 +260,10 @@ def check_header(case, stats):
     text = "\n".join(lines) + "\n"
     stats.case(text, m is not None or "anguag" in hdr, sample=case, labels=[pos, "matches" if m else "near-miss", "known" if name in DIALECTS else "unknown" if name else "-"])
     matcher = gh.TokenMatcher(dflt)
+    if case["reuse"]:
+        # the matcher was used directly before (a pre-scan of another file's header and first lines): parse() starts from a clean matcher anyway
+        for pre_line, meth in (("# language: fr", "match_Language"), ('   """', "match_DocStringSeparator"), ("@t", "match_TagLine")):
+            getattr(matcher, meth)(gh.Token(gh.GherkinLine(pre_line + "\n", 1), {"line": 1}))
     parser = gh.Parser(gh.AstBuilder(gh.IdGenerator()))
     r = gh.parse(text, parser=parser, matcher=matcher)
     hline = lines.index(hdr) + 1
